@@ -1,6 +1,7 @@
 package main
 
 import (
+	"sort"
 	"go/token"
 	"go/types"
 	"strings"
@@ -20,6 +21,8 @@ func propC15() *Property {
 			{ID: "R15.2", Floor: 8, Text: "every close(ch) of a struct-field channel in pkg/protocol, apis/client, apis/server is dominated by a winning CompareAndSwap, a sync.Once, or a closed-check of the same channel under a held mutex", Run: r15_2},
 			{ID: "R15.3", Floor: 10, Text: "every blocking select/send/receive in pkg/protocol (session, underlay, mux) has a shutdown alternative (closedChan, done, ctx.Done, timer) or a default case", Run: r15_3},
 			{ID: "R15.5", Floor: 2, Text: "after RunEventLoop returns, for whatever reason, the goroutine that ran it closes the underlay on every path", Run: r15_5},
+			{ID: "R15.6", Floor: 2, Text: "a stored deadline always arms a timer in Read and writeChunk (also when it has already passed)", Run: r15_6},
+			{ID: "R15.7", Floor: 2, Text: "Session.Close takes no lock that Read/Write hold across a blocking wait", Run: r15_7},
 			{ID: "R15.4", Floor: 2, Text: "StreamUnderlay.Close and PacketUnderlay.Close: closeMutex held, done checked, conn.Set(Read)Deadline called before baseUnderlay.Close", Run: r15_4},
 		},
 	}
@@ -610,4 +613,262 @@ func sameRoot(a, b ssa.Value) bool {
 		return ua.X == ub.X
 	}
 	return false
+}
+
+// r15_6: a stored deadline always arms a timer. In Session.Read and
+// Session.writeChunk the timer channel for the blocking select is created
+// whenever the loaded deadline is non-zero: its creation is control
+// dependent on nothing but comparisons of the loaded deadlines (and the
+// len(b)==0 fast path). A deadline that already lies in the past must still
+// produce a channel that fires (seed C15c skipped the timer for d <= 0, so an
+// expired deadline stopped bounding the call).
+func r15_6(c *RC) {
+	p := c.P
+	for _, fname := range []string{"Session.Read", "Session.writeChunk"} {
+		fn := p.Fn("pkg/protocol", fname)
+		if fn == nil {
+			c.Anchor("pkg/protocol." + fname)
+			continue
+		}
+		n := 0
+		instrs(fn, func(b *ssa.BasicBlock, _ int, in ssa.Instruction) {
+			cl, ok := in.(*ssa.Call)
+			if !ok {
+				return
+			}
+			id := calleeID(cl)
+			if id != "time.After" && id != "time.NewTimer" && id != "time.AfterFunc" {
+				return
+			}
+			// only timers whose duration derives from a stored deadline
+			fromDeadline := false
+			var walk func(v ssa.Value, d int)
+			seen := map[ssa.Value]bool{}
+			walk = func(v ssa.Value, d int) {
+				if v == nil || seen[v] || d > 10 {
+					return
+				}
+				seen[v] = true
+				switch x := v.(type) {
+				case *ssa.Call:
+					if calleeName(x) == "Load" {
+						if f := fieldOrigin(x.Call.Args[0]); f != nil && strings.HasSuffix(f.Name(), "Deadline") {
+							fromDeadline = true
+						}
+					}
+					for _, a := range x.Call.Args {
+						walk(a, d+1)
+					}
+				case *ssa.Phi:
+					for _, e := range x.Edges {
+						walk(e, d+1)
+					}
+				case *ssa.BinOp:
+					walk(x.X, d+1)
+					walk(x.Y, d+1)
+				case *ssa.Convert:
+					walk(x.X, d+1)
+				}
+			}
+			walk(cl.Call.Args[0], 0)
+			if !fromDeadline {
+				return
+			}
+			n++
+			classify := func(v ssa.Value) string {
+				switch x := v.(type) {
+				case *ssa.Call:
+					if b, ok := x.Call.Value.(*ssa.Builtin); ok && b.Name() == "len" {
+						return "len"
+					}
+					switch calleeName(x) {
+					case "Load":
+						if f := fieldOrigin(x.Call.Args[0]); f != nil && strings.HasSuffix(f.Name(), "Deadline") {
+							return "deadline"
+						}
+					case "IsLevelEnabled":
+						return "logging"
+					}
+					return "?" + calleeName(x)
+				case *ssa.Parameter:
+					return "arg"
+				}
+				return ""
+			}
+			seenV := map[string]bool{}
+			for _, ce := range controlConds(fn, b) {
+				for _, k := range condVocab(ce.If.Cond, classify) {
+					seenV[k] = true
+				}
+			}
+			var foreign []string
+			for k := range seenV {
+				if strings.HasPrefix(k, "?") {
+					foreign = append(foreign, k[1:])
+				}
+			}
+			key := "deadline-arms-timer@" + fname
+			if len(foreign) == 0 && seenV["deadline"] {
+				c.OKH(key, in.Pos(), "the timer is created whenever the loaded deadline is non-zero")
+			} else {
+				c.Bad(key, in.Pos(), "%s creates the deadline timer only under a condition on %v: for some stored deadlines (e.g. one that already passed) no timer exists and the call is no longer bounded by the deadline", fname, foreign)
+			}
+		})
+		if n == 0 {
+			c.Bad("deadline-arms-timer@"+fname, fn.Pos(), "%s creates no timer from the stored deadline", fname)
+		}
+	}
+}
+
+// r15_7: Close must not wait for a lock that a blocked Read or Write holds.
+// The locks a Session method keeps while it waits in a blocking select (or
+// in a callee that does) are computed from the code; nothing reachable from
+// Session.Close by static calls may take one of them (seed C15d took wLock in
+// Close: with a writer stuck in back-pressure Close never returns).
+func r15_7(c *RC) {
+	p := c.P
+	isSessionMethod := func(fn *ssa.Function) bool {
+		of := outermost(fn)
+		return of.Signature.Recv() != nil && strings.HasSuffix(of.Signature.Recv().Type().String(), "protocol.Session")
+	}
+	// a wait that only Close (or a deadline) ends: a blocking select, or a
+	// polling select on closedChan inside a loop (the back-pressure loops of
+	// writeChunk poll with a default case and sleep)
+	isWait := func(x *ssa.Select) bool {
+		if x.Blocking {
+			return true
+		}
+		if !reachesSelf(x.Block()) {
+			return false
+		}
+		polls := false
+		for _, st := range x.States {
+			if f := fieldOrigin(st.Chan); f != nil && f.Name() == "closedChan" {
+				polls = true
+			}
+		}
+		if !polls {
+			return false
+		}
+		// the loop sleeps between polls: it is waiting for something, not
+		// merely checking once per unit of work
+		from := blockReach(x.Block(), nil)
+		for _, lb := range x.Block().Parent().Blocks {
+			if !from[lb] || !blockReach(lb, nil)[x.Block()] {
+				continue
+			}
+			for _, in := range lb.Instrs {
+				if cl, ok := in.(*ssa.Call); ok && calleeID(cl) == "time.Sleep" {
+					return true
+				}
+			}
+		}
+		return false
+	}
+	// does fn (transitively, static calls inside pkg/protocol, depth <= 3) wait in a blocking select?
+	memo := map[*ssa.Function]int{}
+	var waits func(fn *ssa.Function, d int) bool
+	waits = func(fn *ssa.Function, d int) bool {
+		if fn == nil || fn.Blocks == nil || d > 3 {
+			return false
+		}
+		if v, ok := memo[fn]; ok {
+			return v == 1
+		}
+		memo[fn] = 0
+		res := false
+		instrs(fn, func(_ *ssa.BasicBlock, _ int, in ssa.Instruction) {
+			switch x := in.(type) {
+			case *ssa.Select:
+				if isWait(x) {
+					res = true
+				}
+			case *ssa.Call:
+				if sc := x.Call.StaticCallee(); sc != nil && relPkg(sc) == "pkg/protocol" && isSessionMethod(sc) {
+					if waits(sc, d+1) {
+						res = true
+					}
+				}
+			}
+		})
+		if res {
+			memo[fn] = 1
+		}
+		return res
+	}
+	heldWhileWaiting := map[lockID]string{}
+	for _, fn := range p.Funcs("pkg/protocol") {
+		if !isSessionMethod(fn) {
+			continue
+		}
+		instrs(fn, func(_ *ssa.BasicBlock, _ int, in ssa.Instruction) {
+			if _, isDefer := in.(*ssa.Defer); isDefer {
+				return
+			}
+			id, kind, ok := lockCall(in)
+			if !ok || (kind != "Lock" && kind != "RLock") || !strings.HasPrefix(string(id), "protocol.Session.") {
+				return
+			}
+			for x := range heldRegion(fn, in, id) {
+				switch y := x.(type) {
+				case *ssa.Select:
+					if isWait(y) {
+						heldWhileWaiting[id] = fnName(fn)
+					}
+				case *ssa.Call:
+					if sc := y.Call.StaticCallee(); sc != nil && isSessionMethod(sc) && waits(sc, 0) {
+						heldWhileWaiting[id] = fnName(fn) + " -> " + fnName(sc)
+					}
+				}
+			}
+		})
+	}
+	if len(heldWhileWaiting) == 0 {
+		c.Undecided("locks-held-while-waiting", token.NoPos, "no Session lock is held across a blocking wait: the rule has nothing to protect (did Read/Write change?)")
+		return
+	}
+	var names []string
+	for id, where := range heldWhileWaiting {
+		names = append(names, string(id)+" ("+where+")")
+	}
+	sort.Strings(names)
+	c.OK("locks-held-while-waiting", token.NoPos, "held across blocking waits: %s", strings.Join(names, "; "))
+	// functions reachable from Session.Close
+	closeFn := p.Fn("pkg/protocol", "Session.Close")
+	if closeFn == nil {
+		c.Anchor("pkg/protocol.Session.Close")
+		return
+	}
+	seen := map[*ssa.Function]bool{}
+	var bad []string
+	var visit func(fn *ssa.Function, d int)
+	visit = func(fn *ssa.Function, d int) {
+		if fn == nil || fn.Blocks == nil || seen[fn] || d > 5 {
+			return
+		}
+		seen[fn] = true
+		instrs(fn, func(_ *ssa.BasicBlock, _ int, in ssa.Instruction) {
+			if _, isDefer := in.(*ssa.Defer); !isDefer {
+				if id, kind, ok := lockCall(in); ok && (kind == "Lock" || kind == "RLock") {
+					if where, held := heldWhileWaiting[id]; held {
+						bad = append(bad, fnName(fn)+" takes "+string(id)+" at "+p.Pos(in.Pos())+", which "+where+" holds while it waits")
+					}
+				}
+			}
+			if cl, ok := in.(ssa.CallInstruction); ok {
+				if _, isGo := in.(*ssa.Go); isGo {
+					return
+				}
+				if sc := cl.Common().StaticCallee(); sc != nil && relPkg(sc) == "pkg/protocol" && isSessionMethod(sc) {
+					visit(sc, d+1)
+				}
+			}
+		})
+	}
+	visit(closeFn, 0)
+	if len(bad) == 0 {
+		c.OKH("close-takes-no-waiting-lock", closeFn.Pos(), "nothing reachable from Session.Close (%d functions) takes a lock that Read/Write hold while blocked", len(seen))
+	} else {
+		c.Bad("close-takes-no-waiting-lock", closeFn.Pos(), "%s: Close then waits for the very call it is supposed to release, and neither returns", strings.Join(bad, "; "))
+	}
 }
